@@ -18,7 +18,7 @@ Requests
       -> {"ok":true,"errors":[{path,keyword,message,schema_path}]}
   {"op":"quit"}
 
-Format assertion is enabled for `date`, `uuid` and `date-time` only (own
+Format assertion is enabled for `date`, `uuid`, `date-time` and `uri` only (own
 implementations below; no optional third-party format packages are used).
 A request that cannot be served is answered with {"ok":false,"error":...};
 the process never dies because of an instance or a schema.
@@ -37,7 +37,7 @@ from referencing import Registry, Resource
 from referencing.jsonschema import DRAFT202012
 
 # --------------------------------------------------------------------------
-# formats (RFC 3339 / RFC 4122), restricted to the three well-defined ones
+# formats (RFC 3339 / RFC 4122 / RFC 3986), restricted to the well-defined ones the schemas use
 
 FORMATS = FormatChecker(formats=())
 
@@ -85,6 +85,30 @@ def _fmt_datetime(v):
     if m.group(9) is not None and (int(m.group(9)) > 23 or int(m.group(10)) > 59):
         return False
     return True
+
+
+# RFC 3986 appendix A, `URI` (absolute, with scheme). IP literals are only
+# checked for their brackets (over-acceptance there cannot raise an alarm).
+_UNRES = r"A-Za-z0-9\-._~"
+_SUB = r"!$&'()*+,;="
+_PCT = r"%[0-9A-Fa-f]{2}"
+_PCHAR = r"(?:[" + _UNRES + _SUB + r":@]|" + _PCT + r")"
+_URI = re.compile(
+    r"^[A-Za-z][A-Za-z0-9+.\-]*:"
+    r"(?://(?:(?:[" + _UNRES + _SUB + r":]|" + _PCT + r")*@)?"
+    r"(?:\[[^\]\[/?#@ ]+\]|(?:[" + _UNRES + _SUB + r"]|" + _PCT + r")*)"
+    r"(?::[0-9]*)?(?:/" + _PCHAR + r"*)*"
+    r"|/(?:" + _PCHAR + r"+(?:/" + _PCHAR + r"*)*)?"
+    r"|" + _PCHAR + r"+(?:/" + _PCHAR + r"*)*"
+    r"|)"
+    r"(?:\?(?:" + _PCHAR + r"|[/?])*)?"
+    r"(?:#(?:" + _PCHAR + r"|[/?])*)?\Z"
+)
+
+
+@FORMATS.checks("uri")
+def _fmt_uri(v):
+    return not isinstance(v, str) or bool(_URI.match(v))
 
 
 # --------------------------------------------------------------------------
